@@ -1,15 +1,13 @@
-//! C07 (collecting from iterators), C08 (once per index, in order): bounded exhaustive
-//! enumeration on the real code.  (C09 lives in e_seq.)
+//! C09 (sequence operations against Vec).  A crate of its own so that it also builds quickly
+//! under AddressSanitizer: an over-read that is then discarded produces the right answer and is
+//! visible only to a memory monitor.
 
-use generic_array::functional::*;
 use generic_array::sequence::*;
 use generic_array::typenum::*;
 use generic_array::{ArrayLength, GenericArray};
-use std::panic::AssertUnwindSafe;
 use vcommon::*;
 
-mod c07;
-mod c08;
+mod c09;
 
 pub type GA<T, N> = GenericArray<T, N>;
 
@@ -31,8 +29,7 @@ pub fn exact<E: Elem>(ids: &[u32]) -> Result<(), String> {
 fn main() {
     let mut ctx = Ctx::from_args();
     match ctx.mode.as_str() {
-        "C07" => c07::run(&mut ctx),
-        "C08" => c08::run(&mut ctx),
+        "C09" => c09::run(&mut ctx),
         m => {
             eprintln!("unknown mode {m}");
             std::process::exit(2)
@@ -40,5 +37,3 @@ fn main() {
     }
     ctx.finish(json!({}));
 }
-#[allow(unused)]
-fn _u(_: AssertUnwindSafe<()>, _: U0) {}
